@@ -209,6 +209,11 @@ def main(argv=None):
                               timeout=getattr(prop, 'PROOF_TIMEOUT', 1500))
     for b in proof['broken']:
         broken.append(dict(b, kind='proof:' + b.get('kind', '?')))
+    if tier == 'thorough' and proof['ok'] and not args.replay:
+        ck = build.coqchk(pid, allowed_axioms=getattr(prop, 'ALLOWED_AXIOMS', ()))
+        proof['coqchk'] = ck
+        if not ck['ok']:
+            broken.append({'kind': 'proof:coqchk', 'message': ck['tail'], 'detail': ck['axioms']})
 
     # 3. runner
     runner_path, rinfo = build.build_runner(pid)
@@ -462,6 +467,7 @@ def write_evidence(pid, tier, seed, t0, prop, broken, stats, nviol):
         'time_model_s': round(stats.get('t_model', 0), 2),
         'time_impl_s': round(stats.get('t_impl', 0), 2),
         'time_proof_s': round(pr.get('wall', 0), 2),
+        'coqchk': {k: v for k, v in pr.get('coqchk', {}).items() if k != 'tail'} or 'not run in this tier',
         'exhaustive': False,
     }
     ev = {'property_id': pid, 'tier': tier, 'seed': seed, 'level': 'proof', 'coverage': cov,
